@@ -188,6 +188,8 @@ func parseContracts(file string, pkgDir string) ([]*FuncSpec, error) {
 			lastExpr = &cur.Lets[len(cur.Lets)-1]
 		case "inline":
 			cur.Inline = true
+		case "pure":
+			cur.Pure = true
 		case "opaque":
 			cur.OpaqueFns = append(cur.OpaqueFns, fields[1:]...)
 		case "trusted":
